@@ -228,7 +228,8 @@ def dumpMState (m : MState α) : Json :=
   Json.mkObj [("species", Json.arr (m.species.map Json.str).toArray), ("speciesVals", encList m.speciesVals),
     ("params", Json.arr (m.params.map Json.str).toArray),
     ("paramVals", Json.arr (m.paramVals.map (fun v => match v with | some x => Codec.enc x | none => Json.null)).toArray),
-    ("initialized", Json.bool m.initialized), ("dummy", Json.num (JsonNumber.fromNat m.dummy))]
+    ("initialized", Json.bool m.initialized), ("dummy", Json.num (JsonNumber.fromNat m.dummy)),
+    ("rules", Json.arr (m.rules.map (fun r => Json.arr #[Json.str r.1, Json.arr (r.2.map Json.str).toArray])).toArray)]
 
 def decMOp (j : Json) : Except String (MOp α) := do
   let a ← j.getArr?
@@ -250,6 +251,7 @@ def decMOp (j : Json) : Except String (MOp α) := do
       | .ok n => pure (KArg.name (← n.getStr?))
       | .error _ => do pure (KArg.num (← Codec.dec (α := α) (← (arg 3).getObjVal? "num")))
     return .createMassAction (← strs (arg 1)) (← strs (arg 2)) k
+  | "createRule" => return .createAdditiveRule (← (arg 1).getStr?) (← strs (arg 2))
   | "initialize" => return .initialize
   | t => throw s!"bad model op {t}"
 
